@@ -1,4 +1,5 @@
 import MpsProofs.Blame
+import MpsProps.HandlerSrc
 import MpsProps.C04Byz
 import MpsGen.Session
 /-
